@@ -11,6 +11,7 @@ import (
 // Ctx is one verification unit: all obligations of one function under contract share the declaration
 // list and the ordered hypothesis list; obligation k sees hypotheses [0, cut_k).
 type Ctx struct {
+	fnList []string // function constants declared so far (pairwise distinct)
 	W      *World
 	Int    bool // arith int mode (mathematical integers + overflow obligations); default bit-vectors
 	decls  []string
@@ -513,7 +514,13 @@ func (c *Ctx) fnConst(name string) string {
 	n := "fn_" + mangle(name)
 	if !c.fnConsts[n] {
 		c.fnConsts[n] = true
-		c.decl("fn:"+n, fmt.Sprintf("(declare-const %s Fn)\n(assert (not (= %s nil_fn)))", n, n))
+		txt := fmt.Sprintf("(declare-const %s Fn)\n(assert (not (= %s nil_fn)))", n, n)
+		// different functions are different function values
+		for _, o := range c.fnList {
+			txt += fmt.Sprintf("\n(assert (not (= %s %s)))", n, o)
+		}
+		c.fnList = append(c.fnList, n)
+		c.decl("fn:"+n, txt)
 	}
 	return n
 }
